@@ -122,6 +122,29 @@ def check(run):
         except Exception as ex:
             run.violation('calculate(inputs=...) raised %s: %s' % (type(ex).__name__, str(ex)[:100]), case)
             continue
+        # the last solution of the model (what write() without a solution writes) is that of the last calculation, whatever
+        # is compiled, exported or copied afterwards
+        after = rnd.sample(['compile', 'to_dict', 'deepcopy', 'compile'], rnd.randint(0, 2))
+        try:
+            for op in after:
+                if op == 'compile':
+                    ins = [wb.key(*a) for a in rnd.sample(consts, min(2, len(consts)))]
+                    outs_ = [wb.key(*a) for a in rnd.sample(forms, min(2, len(forms)))]
+                    if ins and outs_:
+                        live.compile(inputs=ins, outputs=outs_)
+                elif op == 'to_dict':
+                    live.to_dict()
+                else:
+                    copy.deepcopy(live).calculate()
+            v_last = bookrun.solution_values(wb, live.dsp.solution)
+        except Exception as ex:
+            run.violation('%s after the calculation raised %s: %s' % (after, type(ex).__name__, str(ex)[:80]), dict(case, after=after))
+            v_last = v_live
+        bad = [a for a in v_live if v_last[a] != v_live[a]]
+        if bad:
+            a = bad[0]
+            run.violation('after %s the last solution of the model holds %s for cell %s, the calculation returned %s' % (
+                after, bookrun.show(v_last[a]), wb.key(*a), bookrun.show(v_live[a])), dict(case, cell=wb.key(*a), after=after))
         diff = [a for a in v_fresh if v_fresh[a] != v_live[a]]
         if diff:
             a = diff[0]
@@ -162,7 +185,9 @@ def check(run):
         try:
             fresh = bookrun.ExcelModel().from_dict(d)
             v_fresh = bookrun.solution_values(wb, fresh.calculate(inputs=ov_impl))
-            o2 = rnd.sample(outs, min(2, len(outs)))
+            # (a cell that reads unlisted blanks from the running solution does not pull INV(range) into a restricted
+            #  calculation: known finding outputs-restricted-unlisted-blanks, replayed on its witness below)
+            o2 = [a for a in rnd.sample(outs, min(2, len(outs))) if a not in wb.solution_read]
             sol = bookrun.ExcelModel().from_dict(d).calculate(inputs=ov_impl, outputs=[wb.key(*a) for a in o2])
             for a in o2:
                 got = bookrun.wire_impl(np.asarray(sol[wb.key(*a)].value, object)[0, 0]) if wb.key(*a) in sol else 'missing'
@@ -175,14 +200,37 @@ def check(run):
         q = list(v_fresh)
         req.append(wb.to_wire(q, overrides=ov_cells))
         pend.append((wb, q, v_fresh, case, ov_cells))
-    # known finding: a referenced blank cell that the dictionary does not list is not reached by a range override
+    # repaired (5e54b6e): a referenced blank cell that the dictionary does not list is reached by a range override
     dd = {"'[b.xlsx]S'!A1": 1, "'[b.xlsx]S'!A3": 3, "'[b.xlsx]S'!B1": "='[b.xlsx]S'!A2&\"x\"", "'[b.xlsx]S'!B2": "=SUM('[b.xlsx]S'!A1:A3)"}
     try:
         sol = bookrun.ExcelModel().from_dict(dd).calculate(inputs={"'[b.xlsx]S'!A1:A3": [[10], [20], [30]]})
         b1 = sol["'[b.xlsx]S'!B1"].value[0, 0]
     except Exception as ex:
         b1 = 'raised ' + type(ex).__name__
-    run.replay_witness('range-override-unlisted-blank', b1 == 'x', {'witness': 'A2 unlisted, B1 = A2&"x", inputs A1:A3', 'B1': repr(b1)})
+    run.count(1, 'regression/listed-blank', True, 'regression')
+    if b1 != '20x':
+        run.violation('a value supplied through A1:A3 does not reach the blank cell A2 that range assembly listed: A2&"x" is %r, not \'20x\'' % (b1,),
+                      {'workbook': dd, 'overrides': {"'[b.xlsx]S'!A1:A3": '[[10],[20],[30]]'}, 'stream': 'regression'})
+    # known finding: a supplied range without any cell node does not reach another range over the same unlisted blanks
+    dd = {"'[b.xlsx]S'!B2": "=SUM('[b.xlsx]S'!A1:A3)", "'[b.xlsx]S'!B3": "=SUM('[b.xlsx]S'!A2:A3)"}
+    try:
+        sol = bookrun.ExcelModel().from_dict(dd).calculate(inputs={"'[b.xlsx]S'!A1:A3": [[10], [20], [30]]})
+        b3 = sol["'[b.xlsx]S'!B3"].value[0, 0]
+    except Exception as ex:
+        b3 = 'raised ' + type(ex).__name__
+    run.replay_witness('range-override-all-blank-range', b3 != 50, {'witness': 'A1:A3 all unlisted, B3 = SUM(A2:A3), inputs A1:A3', 'B3': repr(b3)})
+    dd = {"'[b.xlsx]S'!A1": 1, "'[b.xlsx]S'!B2": "=SUM('[b.xlsx]S'!A1:A3)", "'[b.xlsx]S'!B3": "=SUM('[b.xlsx]S'!A2:A3)"}
+    try:
+        sol = bookrun.ExcelModel().from_dict(dd).calculate(inputs={"'[b.xlsx]S'!A1:A3": [[10], [20], [30]]}, outputs=["'[b.xlsx]S'!B3"])
+        b3 = sol["'[b.xlsx]S'!B3"].value[0, 0]
+        b3all = bookrun.ExcelModel().from_dict(dd).calculate(inputs={"'[b.xlsx]S'!A1:A3": [[10], [20], [30]]})["'[b.xlsx]S'!B3"].value[0, 0]
+    except Exception as ex:
+        b3 = b3all = 'raised ' + type(ex).__name__
+    run.count(1, 'regression/solution-read', True, 'regression')
+    if b3all != 50:
+        run.violation('a value supplied through A1:A3 (A1 populated) does not reach SUM(A2:A3) over unlisted blanks: %r, not 50' % (b3all,),
+                      {'workbook': dd, 'overrides': {"'[b.xlsx]S'!A1:A3": '[[10],[20],[30]]'}, 'stream': 'regression'})
+    run.replay_witness('outputs-restricted-unlisted-blanks', b3 != 50, {'witness': 'A1 = 1, B3 = SUM(A2:A3), inputs A1:A3, outputs [B3]', 'B3': repr(b3)})
     answers = model(req)
     for ans, (wb, q, base, case, ov_cells) in zip(answers, pend):
         for a, mv in zip(q, ans.split(' ')):
